@@ -33,7 +33,7 @@ Definition idem_okb (ai : bool) (idem : string) (ttl : Z) : bool :=
 Definition popts_ok (ai : bool) (key : string) (o : mpopts) : bool :=
   (idem_okb ai (mp_idem o) (mp_idemttl o) && popts_core key o)%bool.
 
-Definition ropts_ok (o : mropts) : bool := (String.eqb (mr_idem o) "" && exp_okb (mr_exp o))%bool.
+Definition ropts_ok (ai : bool) (o : mropts) : bool := (idem_okb ai (mr_idem o) (mr_idemttl o) && exp_okb (mr_exp o))%bool.
 
 Definition since_okb (top : N) (since : option (N * string)) (reverse : bool) : bool :=
   match since with
@@ -45,7 +45,7 @@ Definition op_ok (ai : bool) (m : mmstate) (o : mop) : bool :=
   match o with
   | MPublish ch key po nonce now => (popts_ok ai key po && nonce_ok nonce)%bool
   | MRemove ch key ro nonce now =>
-      (ropts_ok ro && negb (String.eqb key "") && match sfind ch (mm_chans m) with Some _ => true | None => false end)%bool
+      (ropts_ok ai ro && negb (String.eqb key "") && match sfind ch (mm_chans m) with Some _ => true | None => false end)%bool
   | MReadStream ch since limit reverse nr nm =>
       (String.eqb nr nm && nonce_ok nr && (limit <? 2147483648)%Z &&
        match sfind ch (mm_chans m) with
@@ -77,6 +77,7 @@ Definition chans (ops : list mop) : list string := flat_map op_chan ops.
 Definition op_idem (o : mop) : list (string * string) :=
   match o with
   | MPublish ch _ po _ _ => if String.eqb (mp_idem po) "" then [] else [(ch, mp_idem po)]
+  | MRemove ch _ ro _ _ => if String.eqb (mr_idem ro) "" then [] else [(ch, mr_idem ro)]
   | _ => []
   end.
 Definition idems (ops : list mop) : list (string * string) := flat_map op_idem ops.
@@ -844,10 +845,10 @@ Qed.
 
 Lemma step_remove U n cf rs m ch key ro nonce now_ c :
   cfg_ok cf = true -> keys_ok U -> In ch U -> R U n rs m -> (Z.of_N n < mc_size cf)%Z ->
-  ropts_ok ro = true -> key <> "" -> sfind ch (mm_chans m) = Some c ->
+  exp_okb (mr_exp ro) = true -> mr_idem ro = "" -> key <> "" -> sfind ch (mm_chans m) = Some c ->
   step_goal U n cf rs m (MRemove ch key ro nonce now_).
 Proof.
-  intros Hcf HK Hin HR Hn Hro Hkey Ec.
+  intros Hcf HK Hin HR Hn Hexpb Hidem Hkey Ec.
   destruct (cfg_ok_fields cf Hcf) as (size & sttl & -> & Hsize & Hsttl). cbn [mc_size] in Hn.
   pose proof (R_clear _ _ _ _ HR) as HR0. set (rs0 := clear_outbox rs) in *.
   pose proof (R_chan _ _ _ _ HR0 ch Hin) as Hrel. rewrite Ec in Hrel.
@@ -857,7 +858,6 @@ Proof.
   assert (Hglen : List.length g = List.length (ch_items c)) by (rewrite <- Hg; rewrite map_length; reflexivity).
   set (v := mkRV (Some h) (state_view (ch_epoch c) (ch_state c)) smh (strm_view (ch_epoch c) g (ch_top c))).
   assert (Hviews : views rs0 ch v) by (unfold views, v; cbn [rv_meta rv_state rv_smeta rv_stream]; tauto).
-  unfold ropts_ok in Hro. apply andb_true_iff in Hro as [Hidem Hexpb]. apply String.eqb_eq in Hidem.
   assert (Hexp : exp_ok (mr_exp ro)).
   { unfold exp_okb in Hexpb. unfold exp_ok. destruct (mr_exp ro) as [[eo ee]|]; [|exact I].
     apply andb_true_iff in Hexpb as [A B]. apply negb_true_iff in A. apply String.eqb_neq in A. apply N.ltb_lt in B. split; assumption. }
@@ -936,6 +936,132 @@ Proof.
   - (* the key is not there *)
     assert (Hwc : wipe_cond v (ch_epoch c)) by (apply wipe_cond_of; exact Hsmc).
     rewrite (core_remove_absent rs0 ch (String kc key) _ _ _ nonce now_ v h (ch_epoch c) (ch_top c) Hviews eq_refl Hh Hwc Hf)
+      by (unfold C18Stream.BOUND in *; lia).
+    eexists. eexists. eexists. split; [reflexivity|]. split.
+    + cbn [chan_pos fst snd]. f_equal.
+      unfold parse_add_result. cbn [as_arr List.length Nat.ltb Nat.leb nth as_u64 to_str].
+      unfold C18Stream.BOUND in Htb. rewrite Z.mod_small by lia. rewrite N2Z.id. reflexivity.
+    + apply R_clear. apply (R_mono U n); [lia | exact HR0].
+Qed.
+
+Lemma step_remove_idem U n cf rs m ch key ro nonce now_ c :
+  cfg_ok cf = true -> keys_ok U -> In ch U -> R U n rs m -> (Z.of_N n < mc_size cf)%Z ->
+  exp_okb (mr_exp ro) = true -> mr_idem ro <> "" -> (0 <= mr_idemttl ro < 2147483648)%Z ->
+  res_ok P -> In (ch, mr_idem ro) P -> key <> "" -> sfind ch (mm_chans m) = Some c ->
+  step_goal U n cf rs m (MRemove ch key ro nonce now_).
+Proof.
+  intros Hcf HK Hin HR Hn Hexpb Hidne Httl HPok HinP Hkey Ec.
+  assert (Eid : String.eqb (mr_idem ro) "" = false) by (apply String.eqb_neq; exact Hidne).
+  set (rz := if (0 <? mr_idemttl ro)%Z then mr_idemttl ro else default_idem_ms).
+  assert (Hrz : (0 < rz < 2147483648)%Z) by (unfold rz, default_idem_ms; destruct (0 <? mr_idemttl ro)%Z eqn:E; [apply Z.ltb_lt in E|]; lia).
+  assert (Erexp : (if (0 <? mr_idemttl ro)%Z then millis (mr_idemttl ro) else millis default_idem_ms) = millis rz)
+    by (unfold rz; destruct (0 <? mr_idemttl ro)%Z; reflexivity).
+  destruct (cfg_ok_fields cf Hcf) as (size & sttl & -> & Hsize & Hsttl). cbn [mc_size] in Hn.
+  pose proof (R_clear _ _ _ _ HR) as HR0. set (rs0 := clear_outbox rs) in *.
+  pose proof (R_chan _ _ _ _ HR0 ch Hin) as Hrel. rewrite Ec in Hrel.
+  destruct Hrel as (h & g & smh & Vm & Hh & Hg & Hgi & Vst & Vs & Vsm & Hsmc & Ve & Hvr).
+  destruct (R_inv _ _ _ _ HR0 ch c Ec) as (Hep & Htop & Hcontig & Hents & Hvbd).
+  pose proof (contigT_length _ _ _ Hcontig) as Hlen.
+  assert (Hglen : List.length g = List.length (ch_items c)) by (rewrite <- Hg; rewrite map_length; reflexivity).
+  set (v := mkRV (Some h) (state_view (ch_epoch c) (ch_state c)) smh (strm_view (ch_epoch c) g (ch_top c))).
+  assert (Hviews : views rs0 ch v) by (unfold views, v; cbn [rv_meta rv_state rv_smeta rv_stream]; tauto).
+  assert (Hexp : exp_ok (mr_exp ro)).
+  { unfold exp_okb in Hexpb. unfold exp_ok. destruct (mr_exp ro) as [[eo ee]|]; [|exact I].
+    apply andb_true_iff in Hexpb as [A B]. apply negb_true_iff in A. apply String.eqb_neq in A. apply N.ltb_lt in B. split; assumption. }
+  assert (Htb : (ch_top c + 1 < BOUND)%N) by (unfold C18Stream.BOUND; lia).
+  assert (Hszb : (Z.to_N size < 9223372036854775808)%N) by lia.
+  destruct key as [|kc key]; [congruence|].
+  unfold step_goal. unfold rm_step. fold rs0. unfold rm_remove.
+  cbn [is_ephemeral mc_mode N.eqb Pos.eqb andb]. cbv iota.
+  unfold remove_keys, remove_args. cbn [is_ephemeral has_stream mc_mode mc_keyttl mc_size mc_sttl mc_mttl mc_ordered N.eqb Pos.eqb orb].
+  rewrite Eid. unfold idem_expire. rewrite Eid, Erexp.
+  change (millis 0) with "0". rewrite (zdec_nonneg size) by lia.
+  change (match mr_exp ro with Some (eo, _) => utoa eo | None => "" end) with (exp_off (mr_exp ro)).
+  change (match mr_exp ro with Some (_, ee) => ee | None => "" end) with (exp_epoch (mr_exp ro)).
+  unfold utoa.
+  cbn [ms_add map_shallow]. rewrite core_remove2_i_eq.
+  pose proof (R_cache _ _ _ _ HR0 ch (mr_idem ro) HinP) as Hcache. pose proof (R_now _ _ _ _ HR0) as Hnow0.
+  cbn [mm_step]. unfold mm_remove. cbn [is_ephemeral mc_mode N.eqb Pos.eqb andb]. rewrite Eid. unfold idem_get. rewrite Hnow0.
+  unfold cache_rel in Hcache.
+  destruct (sfind (idem_key ch (mr_idem ro)) (mm_idem m)) as [[[coff cep] cexp]|] eqn:Ecache.
+  { (* cached result *)
+    destruct Hcache as (Hexp0 & Hcoff & Hcres).
+    replace (cexp <=? 0)%N with false by (symmetry; apply N.leb_gt; exact Hexp0).
+    assert (Hic : idem_cond (k_result ch (mr_idem ro)) (millis rz) = true).
+    { unfold idem_cond. rewrite millis_pos by lia. rewrite dec_eqb_empty. reflexivity. }
+    unfold core_remove2_i.
+    rewrite (idem_hit_run (ret RNil) rs0 _ _ _ coff cep _ Hic Hcres) by (eexists; apply num_of_dec_any).
+    eexists. eexists. eexists. split; [reflexivity|]. split.
+    - f_equal. unfold parse_add_result. cbn [as_arr List.length Nat.ltb Nat.leb nth as_u64 to_str].
+      unfold C18Stream.BOUND in Hcoff. rewrite parse_u64_map_dec by lia. reflexivity.
+    - apply R_clear. apply (R_mono U n); [lia | exact HR0]. }
+  assert (Hres : res_view rs0 (k_result ch (mr_idem ro)) None) by exact Hcache.
+  unfold hub_remove. rewrite Ec. cbv zeta. cbn [chan_pos fst snd].
+  replace (cas_check (ch_epoch c) (mr_exp ro) (sfind (String kc key) (ch_state c)))
+    with (cas_dec (ch_epoch c) (mr_exp ro) (sfind (String kc key) (ch_state c)))
+    by (unfold cas_dec; destruct (mr_exp ro) as [[? ?]|]; reflexivity).
+  assert (Hwc0 : wipe_cond v (ch_epoch c)) by (apply wipe_cond_of; exact Hsmc).
+  assert (Htop' : (ch_top c < BOUND)%N) by (unfold C18Stream.BOUND in *; lia).
+  assert (Hcas : cas_block ch (String kc key) (exp_off (mr_exp ro)) (exp_epoch (mr_exp ro)) (ch_epoch c) rs0 =
+                 match cas_dec (ch_epoch c) (mr_exp ro) (sfind (String kc key) (ch_state c)) with
+                 | Some _ => (rs0, inr (RArr [RInt (Z.of_N (ch_top c)); RBulk (ch_epoch c); RBulk "position_mismatch";
+                                            RBulk (cur_val (ch_epoch c) (String kc key) (sfind (String kc key) (ch_state c)))]))
+                 | None => (rs0, inl tt)
+                 end).
+  { destruct (mr_exp ro) as [[eo ee]|]; [|reflexivity]. destruct Hexp as [He1 He2]. cbn [exp_off exp_epoch cas_dec]. unfold utoa.
+    apply (cas_block_spec rs0 ch kc key eo ee (ch_epoch c) (ch_state c) h (ch_top c)); assumption. }
+  destruct (cas_dec (ch_epoch c) (mr_exp ro) (sfind (String kc key) (ch_state c))) as [cp|] eqn:Ecas.
+  { (* position mismatch: nothing changes *)
+    rewrite (core_remove2_i_fail rs0 ch (String kc key) _ _ _ nonce now_ _ _ v h (ch_epoch c) (ch_top c) _ _ _ Hviews eq_refl Hh Hwc0 Hres Hcas).
+    rewrite (parse_add_mismatch (ch_top c) (ch_epoch c) (String kc key) (sfind (String kc key) (ch_state c)));
+      [| unfold C18Stream.BOUND in Htop'; lia | assumption
+       | destruct (sfind (String kc key) (ch_state c)) as [e|] eqn:Ek; [apply (Hents (String kc key, e)); apply in_sfind; exact Ek | exact I]].
+    rewrite <- (cas_dec_cp _ _ _ _ Ecas).
+    eexists. eexists. eexists. split; [reflexivity|]. split; [reflexivity|].
+    apply R_clear. apply (R_mono U n); [lia | exact HR0]. }
+  assert (Hf : sfind (String kc key) (hash_or_empty (rv_state v))
+               = match sfind (String kc key) (ch_state c) with Some e => Some (snd (enc_s (ch_epoch c) (String kc key, e))) | None => None end).
+  { unfold v. cbn [rv_state]. rewrite state_view_hash. apply sfind_enc_s. }
+  destruct (sfind (String kc key) (ch_state c)) as [e|] eqn:Ek.
+  - (* the key is there *)
+    assert (Hne : ch_state c <> []) by (intros X; rewrite X in Ek; discriminate).
+    assert (Hsm : exists hs, smh = Some hs /\ sfind "epoch" hs = Some (ch_epoch c)).
+    { destruct Hsmc as [[_ X]|X]; [|exact X]. rewrite state_view_hash in X. destruct (ch_state c); [congruence | discriminate]. }
+    destruct Hsm as (hs & -> & Heps).
+    assert (Hscond : stream_cond v (ch_top c) (map (genc (ch_epoch c)) g)) by (apply (stream_cond_of v _ g _ (ch_items c)); [reflexivity | assumption | assumption]).
+    destruct (core_remove2_i_present rs0 ch (String kc key) (pb (String kc key) "" true 0) (Z.to_N size) sttl nonce now_ v h
+                (map (enc_s (ch_epoch c)) (ch_state c)) hs (ch_epoch c) (ch_top c) (map (genc (ch_epoch c)) g)
+                (exp_off (mr_exp ro)) (exp_epoch (mr_exp ro)) (k_result ch (mr_idem ro)) rz
+                Hviews eq_refl Hh) as (st' & mh' & Hrun & Hv' & Hh' & Hres' & Hfr);
+      [unfold v; cbn [rv_state]; apply state_view_some; assumption
+      | rewrite sfind_enc_s, Ek; discriminate | reflexivity | assumption | assumption | assumption | assumption | assumption
+      | exact Hcas | exact Hres | apply k_result_not_chan | apply k_result_ne | exact Hrz |].
+    rewrite Hrun. rewrite parse_add_ok by (unfold C18Stream.BOUND in Htb; lia).
+    unfold stream_add. cbv beta iota zeta. cbn [ch_items ch_top ch_epoch ch_state fst snd has_stream mc_mode N.eqb Pos.eqb orb mc_size].
+    rewrite skipn_fit by (rewrite app_length; cbn [List.length]; lia).
+    unfold idem_save. rewrite Eid.
+    eexists. eexists. eexists. split; [reflexivity|]. split; [reflexivity|].
+    eapply (R_update_idem U n (n + 1) rs0 m _ _ ch (mr_idem ro) _ (ch_top c + 1) (ch_epoch c) _ HK HPok Hin HinP HR0);
+      [lia | | intros ch'; apply sfind_set_chan | | | reflexivity | reflexivity
+       | cbn [mm_now del_exp set_chan]; rewrite Hnow0; destruct (Z.eqb_spec (mr_idemttl ro) 0); unfold default_idem_ms; lia | exact Htb
+       | apply (res_view_frame st'); [intros; apply getk_clear_outbox | exact Hres']].
+    + eapply frame_trans; [exact Hfr | apply frame_clear].
+    + apply (chan_rel_frame st'); [intros; apply getk_clear_outbox|].
+      apply (chan_rel_after st' ch (ch_epoch c) (ch_top c) g mh'
+               (match sdel (String kc key) (map (enc_s (ch_epoch c)) (ch_state c)) with [] => None | h' => Some h' end)
+               (Some (smeta_after_leave (String kc key) hs)) (ch_items c) (sdel (String kc key) (ch_state c))
+               ((ch_top c + 1)%N, String kc key, "", true) 0%Z (Z.of_N (Z.to_N size)));
+        try assumption; try reflexivity; try lia.
+      * rewrite sdel_enc_s. destruct (sdel (String kc key) (ch_state c)); reflexivity.
+      * right. eexists. split; [reflexivity|]. unfold smeta_after_leave. rewrite !sfind_sdel_other by (cbn [append]; discriminate). assumption.
+      * unfold gent. rewrite Z2N.id by lia. lia.
+      * cbn [hash_or_empty]. apply ver_rel_remove. exact Hvr.
+    + intros c' E. injection E as <-. unfold chan_inv. cbn [ch_epoch ch_top ch_items ch_state].
+      split; [assumption|]. split; [lia|]. split; [apply contigT_snoc; [assumption | reflexivity]|].
+      split; intros kv Hkv; [apply Hents | apply Hvbd]; eapply in_sdel; eassumption.
+  - (* the key is not there *)
+    assert (Hwc : wipe_cond v (ch_epoch c)) by (apply wipe_cond_of; exact Hsmc).
+    rewrite (core_remove2_i_absent rs0 ch (String kc key) _ _ _ nonce now_ _ _ v h (ch_epoch c) (ch_top c) _ _ Hviews eq_refl Hh Hwc Hres Hcas Hf)
       by (unfold C18Stream.BOUND in *; lia).
     eexists. eexists. eexists. split; [reflexivity|]. split.
     + cbn [chan_pos fst snd]. f_equal.
@@ -1179,9 +1305,17 @@ Proof.
       apply HinP. cbn [op_idem]. apply String.eqb_neq in Eid. rewrite Eid. left. reflexivity.
   - apply andb_true_iff in Hok as [H1 H3]. apply andb_true_iff in H1 as [H1 H2].
     destruct (sfind ch (mm_chans m)) as [c|] eqn:Ec; [|discriminate].
-    apply (step_remove U n cf rs m ch key ro nonce now_ c); try assumption.
-    + apply Hin. left. reflexivity.
-    + apply negb_true_iff in H2. apply String.eqb_neq. exact H2.
+    assert (HinU : In ch U) by (apply Hin; left; reflexivity).
+    assert (Hkey : key <> "") by (apply negb_true_iff in H2; apply String.eqb_neq; exact H2).
+    unfold ropts_ok in H1. apply andb_true_iff in H1 as [Hi He].
+    destruct (String.eqb (mr_idem ro) "") eqn:Eid.
+    + apply String.eqb_eq in Eid. apply (step_remove U n cf rs m ch key ro nonce now_ c); assumption.
+    + unfold idem_okb in Hi. rewrite Eid in Hi. cbn [orb] in Hi.
+      apply andb_true_iff in Hi as [Hi Hu]. apply andb_true_iff in Hi as [_ Hl]. apply Z.leb_le in Hl. apply Z.ltb_lt in Hu.
+      apply (step_remove_idem U n cf rs m ch key ro nonce now_ c); try assumption.
+      * apply String.eqb_neq. exact Eid.
+      * lia.
+      * apply HinP. cbn [op_idem]. rewrite Eid. left. reflexivity.
   - apply andb_true_iff in Hok as [H1 H4]. apply andb_true_iff in H1 as [H1 H3]. apply andb_true_iff in H1 as [H1 H2].
     apply String.eqb_eq in H1. subst nm. apply Z.ltb_lt in H3.
     apply step_read_state; try assumption.
@@ -1231,9 +1365,13 @@ Lemma run_ok_no_idems cf ops : forall m, run_ok cf false m ops = true -> idems o
 Proof.
   induction ops as [|o ops IH]; intros m H; [reflexivity|]. cbn [run_ok] in H. apply andb_true_iff in H as [Ho Hr].
   unfold idems. cbn [flat_map]. fold (idems ops). rewrite (IH _ Hr), app_nil_r.
-  destruct o; try reflexivity. cbn [op_ok] in Ho. apply andb_true_iff in Ho as [Ho _]. unfold popts_ok in Ho.
-  apply andb_true_iff in Ho as [Ho _]. unfold idem_okb in Ho. cbn [andb] in Ho. rewrite orb_false_r in Ho.
-  cbn [op_idem]. rewrite Ho. reflexivity.
+  destruct o; try reflexivity; cbn [op_ok] in Ho.
+  - apply andb_true_iff in Ho as [Ho _]. unfold popts_ok in Ho.
+    apply andb_true_iff in Ho as [Ho _]. unfold idem_okb in Ho. cbn [andb] in Ho. rewrite orb_false_r in Ho.
+    cbn [op_idem]. rewrite Ho. reflexivity.
+  - apply andb_true_iff in Ho as [Ho _]. apply andb_true_iff in Ho as [Ho _]. unfold ropts_ok in Ho.
+    apply andb_true_iff in Ho as [Ho _]. unfold idem_okb in Ho. cbn [andb] in Ho. rewrite orb_false_r in Ho.
+    cbn [op_idem]. rewrite Ho. reflexivity.
 Qed.
 
 (* [ai = true]: Publish may carry idempotency keys and the run contains no Clear; [ai = false]: Clear is allowed and no
